@@ -16,6 +16,18 @@ CHECKS = {
  "C19": ("exploration", "callback-driven shadow model compared with the live universe after every call + pre-state predicates inside each notification + listener differential",
          "a listener that only replays notifications must equal the real structure/data after every call of random histories (accepted, refused, bulk, compound, implicit pin create/drop/disconnect); each notification is checked to precede its effect; extra passive listeners must not change outcomes.",
          "containment order not mirrored; duplicate disconnect notifications inside one call tolerated; clone/uniquify excluded (not the editing API)", "4 C19"),
+ "C08": ("exploration", "before/after independent elaboration (union-find over hierarchical wires) around uniquify + uniqueness walk + snapshot idempotence + invariant hooks inside uniquify",
+         "instance-name tree, leaf type per path and endpoint partition must be identical before/after uniquify on generated sharing-heavy netlists; every non-leaf path unique; new definitions placed/named correctly; second run changes nothing.",
+         "elaboration oracle written against the public read API; generated names never end in _sdn_unique_<n>", "4 C08"),
+ "C09": ("exploration", "before-flatten elaboration vs direct reading of the flat top definition + logical-step budget + invariant hooks inside flatten",
+         "leaf occurrences (slash-joined path, definition, data) and endpoint partition compared on generated uniquified netlists; no hierarchical child may remain; flatten must finish within a step budget.",
+         "names contain no '/'; netlist uniquified first", "4 C09"),
+ "C11": ("exploration", "query results vs independent occurrence enumeration; validity/uniqueness recomputation after breaking edits; flyweight identity",
+         "five hierarchical enumerations (netlist/element/HRef roots, recursive on/off) compared as multisets of item paths with a recursive enumeration; name, validity, uniqueness and flyweight identity of every sampled reference checked before and after random breaking edits.",
+         "is_unique read as 'innermost instance reached by exactly one path' (DESIGN C11)", "4 C11"),
+ "C12": ("exploration", "trace results vs equivalence classes of an independent union-find over hierarchical wires, every hwire/hpin as start",
+         "get_hwires/get_hcables (ALL/INSIDE/OUTSIDE/BOTH), get_hpins(hwire), get_hports(hwire) from every hierarchical wire and pin of generated netlists must equal the oracle's classes exactly, without duplicates.",
+         "net classes derived through the public read API only", "4 C12"),
 }
 NA = {}
 fixes = subprocess.run(["git", "-C", "/repo", "log", "--format=%h %s"], capture_output=True, text=True).stdout.splitlines()
